@@ -245,7 +245,16 @@ func (rw *rewriter) run() {
 			if path == rtPath || (imp.Name != nil && (imp.Name.Name == "_" || imp.Name.Name == ".")) {
 				continue
 			}
-			if !astutil.UsesImport(rw.file, path) {
+			name := ""
+			if imp.Name != nil {
+				name = imp.Name.Name
+			} else if ip := rw.pkg.Imports[path]; ip != nil {
+				name = ip.Name
+			}
+			if name == "" {
+				continue
+			}
+			if !usesName(rw.file, name) {
 				if imp.Name != nil {
 					astutil.DeleteNamedImport(rw.fset, rw.file, imp.Name.Name, path)
 				} else {
@@ -254,6 +263,20 @@ func (rw *rewriter) run() {
 			}
 		}
 	}
+}
+
+// usesName reports whether the file still refers to the imported package name.
+func usesName(f *ast.File, name string) bool {
+	used := false
+	ast.Inspect(f, func(n ast.Node) bool {
+		if se, ok := n.(*ast.SelectorExpr); ok {
+			if id, ok := se.X.(*ast.Ident); ok && id.Name == name && id.Obj == nil {
+				used = true
+			}
+		}
+		return !used
+	})
+	return used
 }
 
 func (rw *rewriter) addrOf(x ast.Expr) ast.Expr {
@@ -494,16 +517,10 @@ func (rw *rewriter) call(n *ast.CallExpr) ast.Expr {
 		}
 		recv := rw.addrOf(sel.X)
 		switch m {
-		case "Load":
-			return rw.rtcall("ALoad", rw.site(n), recv)
-		case "Store":
-			return rw.rtcall("AStore", rw.site(n), recv, n.Args[0])
-		case "Add":
-			return rw.rtcall("AAdd", rw.site(n), recv, n.Args[0])
-		case "Swap":
-			return rw.rtcall("ASwap", rw.site(n), recv, n.Args[0])
-		case "CompareAndSwap":
-			return rw.rtcall("ACAS", rw.site(n), recv, n.Args[0], n.Args[1])
+		case "Load", "Store", "Add", "Swap", "CompareAndSwap", "And", "Or":
+			// x.M(args) -> verifsimrt.Pre(site, &x).M(args): yield, then the operation
+			n.Fun = &ast.SelectorExpr{X: rw.rtcall("Pre", rw.site(n), recv), Sel: sel.Sel}
+			return nil
 		}
 		fatalf("%s: unsupported atomic method %s", rw.fset.Position(n.Pos()), m)
 	case "sync":
